@@ -103,6 +103,12 @@ func OracleC08(ix *Index, out *Outcome) ([]vp.Violation, Judged) {
 			if len(dlqRecs[o]) > 0 && !engineInduced {
 				add("delivered-record-dead-lettered", "", fmt.Sprintf("record %s is rejected by no component per script but has a DLQ record (another record's outcome leaked onto it)", o), at)
 			}
+			if len(dlqRecs[o]) > 0 {
+				// the engine itself nacked it (teardown, fan-out sibling nack): its one
+				// outcome is the DLQ, delivery is not owed
+				j.ByHow["records_dead_lettered_by_engine"]++
+				continue
+			}
 			for _, d := range sc.Topo.Dests {
 				want := exp.Writes[d.ID]
 				got := map[string]bool{}
